@@ -37,8 +37,9 @@ static void disarm(void) { CRASHCLS[0] = 0; }
 static struct { char key[140]; double maxpass, minfail; } MK[MAXMK];
 static int nMK; static const char *MFILE; static int mfile_init;
 static void margin_note(const char *key, double ratio) {
-  if (!mfile_init) { MFILE = getenv("VERIF_MARGINS"); mfile_init = 1; }
+  static int all; if (!mfile_init) { MFILE = getenv("VERIF_MARGINS"); all = getenv("VERIF_MARGINS_ALL") != NULL; mfile_init = 1; }
   if (!MFILE) return;
+  if (all) { FILE *o = fopen(MFILE, "a"); if (o) { fprintf(o, "%s\t%.3e\n", key, ratio); fclose(o); } return; }
   int k; for (k = 0; k < nMK; k++) if (!strcmp(MK[k].key, key)) break;
   if (k == nMK) { if (nMK >= MAXMK) return; snprintf(MK[k].key, sizeof MK[k].key, "%s", key); MK[k].maxpass = -1; MK[k].minfail = INFINITY; nMK++; }
   int upd = 0;
@@ -89,22 +90,6 @@ static void gen_knots(knots *K, int few_nk) {
   snprintf(K->tag, sizeof K->tag, "knots=%d scale=%g spacing=%d ordinates=%d origin=%d", nk, sc, sp, ord, org);
 }
 
-/* Local replacement for engine/vnum.c rm_solve (see notes): rm_lu exchanges whole rows, multipliers included, but rm_solve
- * interleaves the exchanges with the forward substitution, which is only right when at most one exchange moves a row that
- * already holds multipliers; its result is wrong e.g. for the 4x4 natural-spline system with spacings 5.39, 4.08, 3.75.
- * Plain Gaussian elimination with partial pivoting on the augmented matrix, long double. Returns 0 if singular. */
-static int ld_solve(const rmat *A, const rmat *B, rmat *X) {
-  int n = A->r, nb = B->c, w = n + nb; rmat *W = rm_new(n, w);
-  for (int i = 0; i < n; i++) { for (int j = 0; j < n; j++) RM(W, i, j) = RM(A, i, j); for (int j = 0; j < nb; j++) RM(W, i, n + j) = RM(B, i, j); }
-  for (int k = 0; k < n; k++) {
-    int p = k; for (int i = k + 1; i < n; i++) if (fabsl(RM(W, i, k)) > fabsl(RM(W, p, k))) p = i;
-    if (RM(W, p, k) == 0) { rm_free(W); return 0; }
-    if (p != k) for (int j = 0; j < w; j++) { ld t = RM(W, k, j); RM(W, k, j) = RM(W, p, j); RM(W, p, j) = t; }
-    for (int i = k + 1; i < n; i++) { ld f = RM(W, i, k) / RM(W, k, k); if (f == 0) continue; for (int j = k; j < w; j++) RM(W, i, j) -= f * RM(W, k, j); }
-  }
-  for (int c = 0; c < nb; c++) for (int i = n - 1; i >= 0; i--) { ld s = RM(W, i, n + c); for (int j = i + 1; j < n; j++) s -= RM(W, i, j) * RM(X, j, c); RM(X, i, c) = s / RM(W, i, i); }
-  rm_free(W); return 1;
-}
 /* reference natural spline: second derivatives M by a dense pivoted solve in long double */
 typedef struct { int nk; ld x[KMAX], y[KMAX], M[KMAX]; ld Minf, mag, g1; } refspline;
 static void ref_build(refspline *R, int nk, const double *x, const double *y) {
@@ -112,7 +97,7 @@ static void ref_build(refspline *R, int nk, const double *x, const double *y) {
   rmat *A = rm_new(nk, nk), *b = rm_new(nk, 1), *m = rm_new(nk, 1);
   RM(A, 0, 0) = 1; RM(A, nk - 1, nk - 1) = 1;
   for (int i = 1; i < nk - 1; i++) { ld h0 = R->x[i] - R->x[i - 1], h1 = R->x[i + 1] - R->x[i]; RM(A, i, i - 1) = h0; RM(A, i, i) = 2 * (h0 + h1); RM(A, i, i + 1) = h1; RM(b, i, 0) = 6 * ((R->y[i + 1] - R->y[i]) / h1 - (R->y[i] - R->y[i - 1]) / h0); }
-  ld_solve(A, b, m);
+  rm_solve(A, b, m);
   R->Minf = 0; R->g1 = 0; ld ya = 0, hmx = 0;
   for (int i = 0; i < nk; i++) { R->M[i] = RM(m, i, 0); if (fabsl(R->M[i]) > R->Minf) R->Minf = fabsl(R->M[i]); if (fabsl(R->y[i]) > ya) ya = fabsl(R->y[i]); }
   for (int i = 0; i + 1 < nk; i++) { ld h = R->x[i + 1] - R->x[i]; if (h > hmx) hmx = h; ld g = fabsl(R->y[i + 1] - R->y[i]) / h + R->Minf * h; if (g > R->g1) R->g1 = g; }
@@ -188,15 +173,17 @@ static void op_spline(void) {
     h = hv_hash(yv, h);
     /* --- units of x: predict(s x) on knots s x_j equals predict(x), library against library --------------------- */
     for (int u = 0; u < 3; u++) {
-      double s = UNITS[u]; knots Ks = K; double Ps[4 * KMAX]; int anyb = 0;
+      double s = UNITS[u]; knots Ks = K; double Ps[4 * KMAX]; char bad[4 * KMAX];
       for (int i = 0; i < nk; i++) Ks.x[i] = s * K.x[i];
-      for (int i = 0; i < npts; i++) { Ps[i] = s * P[i]; if (near_right_of_interior_knot(&K, P[i]) || near_right_of_interior_knot(&Ks, Ps[i])) anyb = 1; }
+      for (int i = 0; i < npts; i++) { Ps[i] = s * P[i]; bad[i] = (char)(near_right_of_interior_knot(&K, P[i]) || near_right_of_interior_knot(&Ks, Ps[i])); }   /* class of the point in either unit */
       matrix *xys = xy_of(&Ks), *Ss; initMatrix(&Ss); dvector *xs = hv_new(npts, Ps), *ys; initDVector(&ys);
       arm("cubic_spline_predict", "units"); cubic_spline_interpolation(xys, Ss); cubic_spline_predict(xs, Ss, ys); disarm(); vx_transition(2);
       /* s x_j is rounded: the knots move by eps|x|, i.e. the spacings change by a relative eps |x|/h */
-      double tolu = CSAFE * DEPS * ratio * mag * (2 + K.xabs / K.hmin), eu = 0; int wu = -1;
-      if ((int)ys->size == npts) for (int i = 0; i < npts; i++) { double e = fabs(ys->data[i] - yv->data[i]); if (!(e <= eu)) { eu = e; wu = i; } } else eu = INFINITY;
-      judge(eu, tolu, anyb ? "units|cubic_spline_predict|dx<1e-2" : "units|cubic_spline_predict", "%s unit factor %g: point #%d x=%.17g gives %.12g, in the other unit %.12g", K.tag, s, wu, wu >= 0 ? P[wu] : 0, wu >= 0 ? yv->data[wu] : 0, wu >= 0 && (int)ys->size == npts ? ys->data[wu] : 0);
+      double tolu = CSAFE * DEPS * ratio * mag * (2 + K.xabs / K.hmin), eu[2] = {0, 0}; int wu[2] = {-1, -1}, szok = (int)ys->size == npts;
+      vx_check(szok, "shape|cubic_spline_predict", "%s unit factor %g: %zu values for %d points", K.tag, s, ys->size, npts);
+      if (szok) for (int i = 0; i < npts; i++) { double e = fabs(ys->data[i] - yv->data[i]); int b = bad[i]; if (!(e <= eu[b])) { eu[b] = e; wu[b] = i; } }
+      for (int b = 0; b < 2 && szok; b++)
+        judge(eu[b], tolu, b ? "units|cubic_spline_predict|dx<1e-2" : "units|cubic_spline_predict", "%s unit factor %g: point #%d x=%.17g gives %.12g, in the other unit %.12g", K.tag, s, wu[b], wu[b] >= 0 ? P[wu[b]] : 0, wu[b] >= 0 ? yv->data[wu[b]] : 0, wu[b] >= 0 ? ys->data[wu[b]] : 0);
       DelMatrix(&xys); DelMatrix(&Ss); DelDVector(&xs); DelDVector(&ys);
     }
   }
